@@ -125,7 +125,7 @@ func RunCells(in, out string, seed int64, sample, reps, workers, base int, noshu
 		distinct[jobs[i].cell] = true
 		c, o := l.C, l.Out
 		rightID := map[string]bool{"form_ok": true, "query_ok": true, "formwrong_queryok": true, "formok_querywrong": true, "dup_wrong_ok": true, "dup_ok_wrong": true, "formempty_queryok": true}[c.Cid]
-		rightSec := !map[string]bool{"none": true, "form_wrong": true, "query_wrong": true, "header_wrong": true, "form_empty": true}[c.Sec]
+		rightSec := !map[string]bool{"none": true, "form_wrong": true, "query_wrong": true, "header_wrong": true, "form_empty": true, "dup_wrong_wrong": true, "hdrdup_wrong_wrong": true}[c.Sec]
 		if rightID && rightSec {
 			st["credentialed"]++
 			if o.Status >= 200 && o.Status < 300 {
